@@ -259,7 +259,7 @@ def generate(tier, seed, ctx):
     # degenerate shapes (a dimension equal to zero)
     for (m, n) in [(0, 0), (0, 2), (2, 0), (0, 1), (1, 0)]:
         A = Rows([[] for _ in range(m)], n); a = mat_tok(A)
-        R.append("c04.plus m %s %s" % (a, a)); R.append("c04.plus a %s %s" % (a, a))
+        R.append("c04.plus m %s %s" % (a, a)); R.append("c04.minus a %s %s" % (a, a))
         R.append("c04.transpose " + a); R.append("c04.preds " + a); R.append("c04.trace " + a)
         R.append("c04.mul m %s %s" % (a, mat_tok(Rows([[1.0] * m for _ in range(n)], m))))
         R.append("c04.matvec m %s %s" % (a, lst([1.0] * n)))
@@ -309,8 +309,12 @@ def V(items, K):
     return ("ok", items, K)
 
 
-def rM(r, c, f, K):
-    """matrix result: header ints then entries f(i,j) -> (value, scale)"""
+def rM(r, c, f, K, via_entries=False):
+    """matrix result: header ints then entries f(i,j) -> (value, scale).  via_entries: the C++ builds the
+    result through Matrix(vector<vector<double>>), which reports 0 columns when there is no row (shapes
+    with a zero dimension are outside the property's quantifier; the reference follows the code there)"""
+    if via_entries and r == 0:
+        c = 0
     return ("ok", [("int", r), ("int", c)] + [f(i, j) for i in range(r) for j in range(c)], K)
 
 
@@ -330,11 +334,11 @@ def u32(i):
 def pyref(op, a):
     c = Cur(a)
     if op in ("c04.plus", "c04.minus"):
-        c.tok(); (r, k, A), (r2, k2, B) = c.mat(), c.mat()
+        sp = c.tok(); (r, k, A), (r2, k2, B) = c.mat(), c.mat()
         if (r, k) != (r2, k2):
             return ERR
         sg = 1 if op == "c04.plus" else -1
-        return rM(r, k, lambda i, j: (A[i][j] + sg * B[i][j], abs(A[i][j]) + abs(B[i][j])), 1)
+        return rM(r, k, lambda i, j: (A[i][j] + sg * B[i][j], abs(A[i][j]) + abs(B[i][j])), 1, sp != "a")
     if op == "c04.mul":
         c.tok(); (r, k, A), (r2, k2, B) = c.mat(), c.mat()
         if k != r2:
@@ -342,12 +346,12 @@ def pyref(op, a):
         return rM(r, k2, lambda i, j: acc(A[i][t] * B[t][j] for t in range(k)), k + 2)
     if op == "c04.smul":
         c.tok(); (r, k, A) = c.mat(); s = c.num()
-        return rM(r, k, lambda i, j: (s * A[i][j], abs(s * A[i][j])), 1)
+        return rM(r, k, lambda i, j: (s * A[i][j], abs(s * A[i][j])), 1, True)
     if op == "c04.sdiv":
         c.tok(); (r, k, A) = c.mat(); s = c.num()
         if s == 0:
             return UNDEF
-        return rM(r, k, lambda i, j: (A[i][j] / s, abs(A[i][j] / s)), 1)
+        return rM(r, k, lambda i, j: (A[i][j] / s, abs(A[i][j] / s)), 1, True)
     if op == "c04.matvec":
         c.tok(); (r, k, A) = c.mat(); v = c.vec()
         if len(v) != k:
@@ -360,7 +364,7 @@ def pyref(op, a):
         return rV(k, lambda i: acc(v[j] * A[j][i] for j in range(r)), r + 2)
     if op == "c04.transpose":
         (r, k, A) = c.mat()
-        return rM(k, r, lambda i, j: (A[j][i], 0), 0)
+        return rM(k, r, lambda i, j: (A[j][i], 0), 0, True)
     if op == "c04.trace":
         (r, k, A) = c.mat()
         if r != k:
